@@ -45,11 +45,14 @@ def configs():
         for enc in ENCODINGS:
             for d in DIALECTS:
                 out.append({"flush": flush, "encoding": enc, "csv": d})
+    # flush_on_insert given as 1 (truthy, == True, not a bool): flushes like True
+    out.append({"flush": True, "encoding": None, "csv": {}, "flush_as_int": True})
+    out.append({"flush": True, "encoding": "utf-8", "csv": {"delimiter": ";"}, "flush_as_int": True})
     return out
 
 
 def cfg_label(c):
-    return f"flush={c['flush']},enc={c['encoding']},dialect={c['csv']}"
+    return f"flush={'1 (int)' if c.get('flush_as_int') else c['flush']},enc={c['encoding']},dialect={c['csv']}"
 
 
 def encodable(s, enc):
@@ -128,7 +131,7 @@ def decode_both(res, s, cfg, scratch):
 
 
 def run_history(res, c, scratch, rng):
-    cfg = default_config("csv", rng.random() < 0.5, flush=c["flush"], encoding=c["encoding"], csv=c["csv"])
+    cfg = default_config("csv", rng.random() < 0.5, flush=c["flush"], encoding=c["encoding"], csv=c["csv"], flush_as_int=bool(c.get("flush_as_int")))
     if c["flush"] and rng.random() < 0.2:
         # access mode w+ (truncate on open, then read/write): only ever opened once in a history
         cfg["access_mode"] = "w+"
